@@ -1,6 +1,7 @@
 (* C04 - Unmarshal is total and memory-safe on arbitrary bytes. *)
 From Coq Require Import List ZArith Bool.
-From Pico Require Import Base.Res Base.Mach Wire.Wire Schema.Types Schema.Scalar Dec.Dec Dec.SafetyProofs Dec.LoopEquiv Dec.LoopInst.
+From Pico Require Import Base.Res Base.Mach Wire.Wire Schema.Types Schema.Scalar Schema.Gen Schema.Interp Ref.Ref Dec.Dec Dec.SafetyProofs Dec.LoopEquiv Dec.LoopInst
+  Dec.TokenBridge Schema.DecOps Schema.TDec.
 Import ListNotations.
 Open Scope Z_scope.
 
@@ -28,13 +29,32 @@ Theorem C04_reader_progress : forall k num slot st fs, rmatch _ _ (scalar_reader
   (blen st' < blen st)%nat \/ (pfv st' = false /\ (blen st' <= blen st)%nat).
 Proof. exact scalar_reader_progress. Qed.
 
-(* PARTIAL. Termination: every loop of the decoder model is structurally recursive on a fuel
-   argument that the entry point sets to (input length + 2); that this fuel is never exhausted
-   on the way to the result (i.e. each iteration makes progress) is validated by correspondence
-   (the model's verdicts agree with the implementation on the malformed stream, including
-   10 000-deep nesting), not proved. Absence of panics in the implementation, Go stack growth
-   and wall-clock bounds are runtime facts observed by the harness (recover(), watchdog,
-   input bytes before/after). See DESIGN.md C04. *)
+(* the field skipper (ConsumeFieldValue, groups of any nesting) never reports more bytes than the input holds *)
+Theorem C04_skipper_in_bounds : forall fuel num typ b depth,
+  consume_field_value_d fuel num typ b depth < 0 \/ 0 <= consume_field_value_d fuel num typ b depth <= Z.of_nat (length b).
+Proof. exact cfv_d_bound. Qed.
+(* every emitted Decode statement whose pending-field test succeeds keeps the cursor invariant, strictly shortens the
+   remaining input or invalidates the pending field, and never clears dec.err - whatever the nested Decode methods do *)
+Theorem C04_statement_progress : forall progs F' rec, (forall idx, sticky_fn (rec idx)) -> forall op st t,
+  op_num_ok op = true -> op_match op st = true ->
+  (pf_inv st -> pf_inv (fst (dec_op_run progs (S F') rec op st t))) /\
+  (pf_inv st -> adv st (fst (dec_op_run progs (S F') rec op st t))) /\
+  (err st <> None -> err (fst (dec_op_run progs (S F') rec op st t)) <> None).
+Proof. exact op_run_facts. Qed.
+(* Termination with the budget the entry point passes (input length + 3): Unmarshal's result on ARBITRARY bytes is the
+   reference decoder's - a value or an error, never "out of fuel" - for every schema of the feature set. The Loop
+   theorem behind it (C02_every_decode_body) shows that length + 2 iterations of the single-pass parser suffice. *)
+Theorem C04_total_on_arbitrary_bytes : forall s progs idx data t0,
+  gen_all s = GOk progs -> tdec_applies s = true -> bytes_ok data ->
+  let r := pico_unmarshal progs idx data t0 in
+  match ref_decode (S (S (S (length data)))) s idx data t0 with
+  | Some t'' => fst r = None /\ snd r = t''
+  | None => fst r <> None
+  end.
+Proof. exact T_dec_b. Qed.
+
+(* Runtime facts no Gallina model expresses - absence of panics in the Go code, stack growth, wall-clock bounds, the input
+   slice left unmodified - are observed by the harness (recover(), watchdog, 10 001-deep nesting, input bytes before/after). *)
 
 Example C04_nonvacuous : consume_varint [255;255;255;255;255;255;255;255;255;2] = (0, errOverflow) /\ consume_bytes [5; 10] = ([], errTruncated).
 Proof. split; vm_compute; reflexivity. Qed.
@@ -43,3 +63,6 @@ Print Assumptions C04_varint_in_bounds.
 Print Assumptions C04_bytes_in_bounds.
 Print Assumptions C04_cursor_progress.
 Print Assumptions C04_skip_progress.
+Print Assumptions C04_skipper_in_bounds.
+Print Assumptions C04_statement_progress.
+Print Assumptions C04_total_on_arbitrary_bytes.
